@@ -16,7 +16,14 @@ func main() {
 		fmt.Fprintln(os.Stderr, "usage: gen <config> <stubfile>")
 		os.Exit(2)
 	}
-	cfg, err := config.LoadConfig(os.Args[1])
+	var cfg *config.Config
+	var err error
+	if os.Args[1] == "-auto" {
+		// find gqlgen.yml upwards from the current directory, as the gqlgen command does
+		cfg, err = config.LoadConfigFromDefaultLocations()
+	} else {
+		cfg, err = config.LoadConfig(os.Args[1])
+	}
 	if err != nil {
 		fmt.Fprintln(os.Stderr, "load config:", err)
 		os.Exit(1)
